@@ -418,7 +418,10 @@ func runExpr(e *eval.Expr, b *Built, rc *RunCfg, f *RecFetcher, try bool) (o *Ev
 	nn := len(eval.VerifExport(e).Nodes)
 	ch := make(chan eval.Event, 4*nn+64)
 	e.EventChan = ch
-	guarded(map[string]interface{}{"call": map[bool]string{false: "Eval", true: "TryEval"}[try], "last_compiled_source": lastSource, "config": rc.Describe(), "binding": fmt.Sprint(f.Vals), "available": fmt.Sprint(f.Avail)}, func() {
+	wdMu.Lock()
+	lsrc := lastSource
+	wdMu.Unlock()
+	guarded(map[string]interface{}{"call": map[bool]string{false: "Eval", true: "TryEval"}[try], "last_compiled_source": lsrc, "config": rc.Describe(), "binding": fmt.Sprint(f.Vals), "available": fmt.Sprint(f.Avail)}, func() {
 		defer func() {
 			if p := recover(); p != nil {
 				o.Panic = p
@@ -445,7 +448,9 @@ func runExpr(e *eval.Expr, b *Built, rc *RunCfg, f *RecFetcher, try bool) (o *Ev
 var lastSource string
 
 func compileSafe(conf *eval.Config, src string) (e *eval.Expr, err error, pan interface{}) {
+	wdMu.Lock()
 	lastSource = src
+	wdMu.Unlock()
 	guarded(map[string]interface{}{"call": "Compile", "source": src}, func() {
 		defer func() {
 			if p := recover(); p != nil {
